@@ -20,7 +20,7 @@ structure Dev where
   binds  : List ((String × Name) × Name) := []     -- (direction, interface) ↦ access-list
   routes : List String := []
   mode   : Option Name := none                      -- object-group whose sub-mode is open
-  deriving Repr, Inhabited
+  deriving DecidableEq, Repr, Inhabited
 
 def ofConfig (c : Config) : Dev :=
   { intfs := c.intfs, groups := c.groups,
@@ -40,8 +40,15 @@ def setAssoc {κ β : Type} [BEq κ] (m : List (κ × β)) (k : κ) (v : β) : L
 
 def delAssoc {κ β : Type} [BEq κ] (m : List (κ × β)) (k : κ) : List (κ × β) := m.filter fun p => !(p.1 == k)
 
-/-- Destination of a route text `INTF IP MASK GW`: the first three words. -/
-def routeDst (r : String) : List String := (r.splitOn " ").take 3
+/-- The characters in front of the `k`-th blank. -/
+def upToBlank : Nat → List Char → List Char
+  | _, [] => []
+  | 0, _ => []
+  | k + 1, c :: cs => if c == ' ' then (if k == 0 then [] else c :: upToBlank k cs) else c :: upToBlank (k + 1) cs
+
+/-- Destination of a route text `INTF IP MASK GW`: the first three words (structural, so that concrete
+configurations can be evaluated by the kernel). -/
+def routeDst (r : String) : List Char := upToBlank 3 r.toList
 
 def exec1 (d : Dev) : Chg → Except String Dev
   | .exit => if d.mode.isNone then .error "exit outside of a sub-mode" else .ok { d with mode := none }
